@@ -21,6 +21,28 @@ namespace PC = PoseidonGoldilocksConstants;
 extern "C" void verif_omp_set_mode(int mode, uint64_t perm_seed, int force_team) __attribute__((weak));
 extern "C" void verif_omp_stats(uint64_t out[5]) __attribute__((weak));
 
+// the flattened (transposed) copies M_ / P_ are an implementation detail of the vector code: when the tree has them they are checked
+// against the row forms; when a tree does not have them the same values are derived from M and P (build passes VERIF_HAVE_FLAT_TABLES=0)
+#ifndef VERIF_HAVE_FLAT_TABLES
+#define VERIF_HAVE_FLAT_TABLES 1
+#endif
+static inline uint64_t flatM(int i)
+{
+#if VERIF_HAVE_FLAT_TABLES
+    return PC::M_[i].fe;
+#else
+    return PC::M[i % 12][i / 12].fe;
+#endif
+}
+static inline uint64_t flatP(int i)
+{
+#if VERIF_HAVE_FLAT_TABLES
+    return PC::P_[i].fe;
+#else
+    return PC::P[i % 12][i / 12].fe;
+#endif
+}
+
 // ------------------------------------------------------------------ reference permutation (spec form, oracle arithmetic)
 struct Ref
 {
@@ -29,6 +51,7 @@ struct Ref
     uint64_t Pinv[12][12]; // the same for the P layer
     uint64_t Sden[22];     // partial round r: 1 / (S0 - sum_k w_k v_k)
     uint64_t root7;        // exponent e with x^(7e) = x
+    bool m_small = true;   // every MDS entry below 2^16 (then the fast arithmetic may accumulate a row before reducing)
     Ref()
     {
         for (int i = 0; i < 118; i++) C[i] = orc::canon(PC::C[i].fe);
@@ -40,6 +63,7 @@ struct Ref
             u128 m = (u128)PP - 1;
             for (u128 k = 1; k < 8; k++) if ((k * m + 1) % 7 == 0) { root7 = (uint64_t)((k * m + 1) / 7); break; }
         }
+        for (int i = 0; i < 12; i++) for (int j = 0; j < 12; j++) if (M[i][j] >= 65536) m_small = false;
         invert();
     }
     static void lin(uint64_t st[12], const uint64_t mat[12][12])
@@ -114,6 +138,20 @@ struct Ref
         }
         memcpy(st, o, sizeof o);
     }
+    // MDS layer: the entries are below 2^8, so twelve products fit a 128-bit accumulator and are reduced once
+    static void lin_fast_small(uint64_t st[12], const uint64_t mat[12][12])
+    {
+        uint64_t o[12];
+        for (int i = 0; i < 12; i++)
+        {
+            u128 acc = 0;
+            for (int j = 0; j < 12; j++) acc += (u128)mat[j][i] * st[j];
+            // acc < 2^80: acc = lo + hi*2^64 with hi < 2^16, 2^64 = 2^32-1 (mod p)
+            uint64_t lo = (uint64_t)acc, hi = (uint64_t)(acc >> 64);
+            o[i] = fadd(lo >= PP ? lo - PP : lo, hi * 0xFFFFFFFFULL);
+        }
+        memcpy(st, o, sizeof o);
+    }
     static inline uint64_t p7_fast(uint64_t x) { uint64_t x2 = fmul(x, x), x4 = fmul(x2, x2); return fmul(fmul(x4, x2), x); }
     void permute_fast(uint64_t out[12], const uint64_t in[12], int cap_stage = -1, uint64_t *cap = nullptr) const
     {
@@ -123,7 +161,7 @@ struct Ref
         {
             for (int i = 0; i < 12; i++) st[i] = fadd(p7_fast(st[i]), C[(r + 1) * 12 + i]);
             if (cap_stage == r) memcpy(cap, st, sizeof st);
-            lin_fast(st, M);
+            if (m_small) lin_fast_small(st, M); else lin_fast(st, M);
         }
         for (int i = 0; i < 12; i++) st[i] = fadd(p7_fast(st[i]), C[4 * 12 + i]);
         if (cap_stage == 3) memcpy(cap, st, sizeof st);
@@ -141,11 +179,11 @@ struct Ref
         {
             for (int i = 0; i < 12; i++) st[i] = fadd(p7_fast(st[i]), C[5 * 12 + 22 + r * 12 + i]);
             if (cap_stage == 26 + r) memcpy(cap, st, sizeof st);
-            lin_fast(st, M);
+            if (m_small) lin_fast_small(st, M); else lin_fast(st, M);
         }
         for (int i = 0; i < 12; i++) st[i] = p7_fast(st[i]);
         if (cap_stage == 29) memcpy(cap, st, sizeof st);
-        lin_fast(st, M);
+        if (m_small) lin_fast_small(st, M); else lin_fast(st, M);
         memcpy(out, st, sizeof st);
     }
     void invert()
@@ -276,7 +314,7 @@ static uint64_t table_hash()
     for (int i = 0; i < 118; i++) f(PC::C[i].fe);
     for (int i = 0; i < 507; i++) f(PC::S[i].fe);
     for (int i = 0; i < 12; i++) for (int j = 0; j < 12; j++) { f(PC::M[i][j].fe); f(PC::P[i][j].fe); }
-    for (int i = 0; i < 144; i++) { f(PC::M_[i].fe); f(PC::P_[i].fe); }
+    for (int i = 0; i < 144; i++) { f(flatM(i)); f(flatP(i)); }
     return h;
 }
 #ifndef VERIF_POSEIDON_TABLE_HASH
@@ -290,9 +328,13 @@ static void check_tables(Report &rep, const Ref &ref, const char *prop)
     for (int i = 0; i < 12; i++)
         for (int j = 0; j < 12; j++)
         {
+#if VERIF_HAVE_FLAT_TABLES
             if (PC::M_[12 * i + j].fe != PC::M[j][i].fe) rep.violation(std::string(prop) + ":tables:M_-layout", J().i("i", i).i("j", j).done());
             if (PC::P_[12 * i + j].fe != PC::P[j][i].fe) rep.violation(std::string(prop) + ":tables:P_-layout", J().i("i", i).i("j", j).done());
             if (PC::M_[12 * i + j].fe >= 256) rep.violation(std::string(prop) + ":tables:M_-not-8bit", J().i("i", i).i("j", j).done());
+#else
+            if (PC::M[j][i].fe >= 256) rep.violation(std::string(prop) + ":tables:M-not-8bit", J().i("i", i).i("j", j).done());
+#endif
         }
     for (int i = 0; i < 118; i++)
         if (PC::C[i].fe > 0xFFFFFFFF00000000ULL) rep.violation(std::string(prop) + ":tables:C-not-canonical", J().i("i", i).done());
@@ -394,7 +436,7 @@ struct StateGen
                 int row = (int)r.below(12);
                 for (int j = 0; j < 12; j++)
                 {
-                    uint64_t m = PC::M_[12 * row + j].fe;
+                    uint64_t m = flatM(12 * row + j);
                     if (m == 0) m = 1;
                     switch (style)
                     {
@@ -427,7 +469,7 @@ struct StateGen
             int row = (int)r.below(12);
             for (int j = 0; j < 12; j++)
             {
-                uint64_t m = PC::M_[12 * row + j].fe;
+                uint64_t m = flatM(12 * row + j);
                 if (m == 0) m = 1;
                 switch (style)
                 {
@@ -590,8 +632,11 @@ static void run_c07(const vf::Args &args, Report &rep)
     if (args.thorough()) for (uint64_t l : {1048576ULL + 5, 777777ULL}) lens.push_back(l);
     // beyond 2^24 elements (lengths a float cannot hold exactly): only in the runs that ask for it (production flags; 128 MiB per input)
     if (args.getu("beyond24", 0)) { lens.push_back((1ULL << 24) + 1); if (args.thorough()) lens.push_back((1ULL << 24) + 9); }
-    {
+    bool fast_checked = false;
+    auto crosscheck_fast = [&]() {
         // the fast arithmetic used by the oracle for inputs longer than 100000 elements must agree with the u128 % oracle
+        if (fast_checked) return;
+        fast_checked = true;
         Rng q(vf::mix64(args.seed, 0xFA57));
         for (int k = 0; k < 3000; k++)
         {
@@ -602,7 +647,7 @@ static void run_c07(const vf::Args &args, Report &rep)
             if (memcmp(o1, o2, sizeof o1)) { fprintf(stderr, "harness error: the two oracle arithmetics disagree\n"); abort(); }
         }
         rep.cls("oracle:fast_arithmetic_crosschecked", 3000);
-    }
+    };
     uint64_t contents = args.getu("contents", args.thorough() ? 2000 : 48);
     uint64_t idx = 0;
     static const uint64_t SENT = 0x5E5E5E5E5E5E5E5EULL;
@@ -622,7 +667,7 @@ static void run_c07(const vf::Args &args, Report &rep)
                 for (int tries = 0; tries < 50; tries++)
                 {
                     int row = (int)r.below(12);
-                    for (int j = 0; j < 12; j++) { uint64_t m = PC::M_[12 * row + j].fe; T[j] = (PP + r.below(0xFFFFFFFFULL)) / (m ? m : 1); }
+                    for (int j = 0; j < 12; j++) { uint64_t m = flatM(12 * row + j); T[j] = (PP + r.below(0xFFFFFFFFULL)) / (m ? m : 1); }
                     ref.solve_input(st, T, 0);
                     // the capacity part of the first block is zero: only usable when the solved capacity is zero - instead just use the rate part
                     break;
@@ -630,6 +675,7 @@ static void run_c07(const vf::Args &args, Report &rep)
                 for (int i = 0; i < 8; i++) in[i] = st[i];
             }
             uint64_t e1[4], e2[4];
+            if (l > 100000) crosscheck_fast();
             if (l > 10000000) memcpy(in.data() + l, in.data(), l * 8); // very long: the same content twice, one oracle sponge
             ref.sponge(e1, in.data(), l);
             if (l > 10000000) memcpy(e2, e1, sizeof e2); else ref.sponge(e2, in.data() + l, l);
@@ -899,10 +945,11 @@ static void run_c06_concurrent(const vf::Args &args, Report &rep)
                     for (int i = 0; i < n; i++)
                         if (orc::canon(got[i].fe) != exp[i] && !bad[me].backend) { bad[me].backend = backend; bad[me].j = j; for (int q = 0; q < 12; q++) bad[me].got[q] = q < n ? got[q].fe : 0; }
                 };
-                PoseidonGoldilocks::hash_full_result_seq(out, in);
-                chk("hash_full_result_seq", out, j.exp, 12);
+                // the first call of a member is the vector path in even members and the scalar path in odd ones
+                if (me & 1) { PoseidonGoldilocks::hash_full_result_seq(out, in); chk("hash_full_result_seq", out, j.exp, 12); }
                 PoseidonGoldilocks::hash_full_result(out, in);
                 chk("hash_full_result", out, j.exp, 12);
+                if (!(me & 1)) { PoseidonGoldilocks::hash_full_result_seq(out, in); chk("hash_full_result_seq", out, j.exp, 12); }
                 El c4[4];
                 PoseidonGoldilocks::hash_seq((El(&)[4]) * c4, (const El(&)[12]) * in);
                 chk("hash_seq", c4, j.exp, 4);
@@ -987,7 +1034,12 @@ int main(int argc, char **argv)
     Report rep;
     rep.open(args.prop, args.out);
     std::string what = args.get("what", args.prop);
-    if (what == "C06") { run_c06(args, rep); run_c06_concurrent(args, rep); }
+    if (what == "C06")
+    {
+        // odd shards: the very first use of the permutation in the process is the concurrent one (state prepared lazily on first use)
+        if (args.shard & 1) { rep.cls("coldstart:first_use_is_concurrent"); run_c06_concurrent(args, rep); run_c06(args, rep); }
+        else { run_c06(args, rep); run_c06_concurrent(args, rep); }
+    }
     else if (what == "C07") { run_c07(args, rep); run_c07_concurrent(args, rep); }
     else if (what == "C08") run_c08(args, rep);
     else if (what == "tablehash") { printf("0x%016llxULL\n", (unsigned long long)table_hash()); return 0; }
